@@ -1,1 +1,2 @@
 import CbOblig.C04
+import CbOblig.C02
